@@ -376,7 +376,7 @@ class Run:
                     self.dist[k] += 1
             if res is not None:
                 self.nmis[name] += 1
-                if self.nmis[name] <= 40:
+                if self.nmis[name] <= 400:
                     self.mismatches.append((name, case, res))
 
 
